@@ -15,7 +15,7 @@ for _pid in ("C30", "C29", "C33", "C27", "C28"):
         _pid,
         level="other",
         explanation="(in progress)", bounds="", outside="", level_text="", level_note="", technique="", assumptions=[],
-        timeout={"quick": 900, "thorough": 900},
+        timeout={"quick": 600, "thorough": 900},
         mem_gb=12,
         cbmc_args=_CBMC,
         unwind_patterns=_UNWIND,
